@@ -5,6 +5,7 @@ package main
 // Eff:  "W"  the receiver object is written, all arguments are read
 //       "R"  receiver and arguments are only read
 //       "W0" argument 0 is written, receiver and other arguments are read
+//       "W1" argument 1 is written (io.ReadFull(r, buf))
 // Res:  "recv" the result is the receiver pointer, "arg0" the result is
 //       argument 0, "fresh" a freshly allocated object, "fresh+arg0" (append
 //       style), "scalar" no reference.
@@ -43,18 +44,6 @@ func init() {
 	// Bits exposes the internal word slice: the result aliases the receiver.
 	addMethods("big.Int", "R", "recv", Type{E: sliceOf("uint"), Pkg: ""}, "Bits")
 	addMethods("big.Int", "W0", "arg0", bytesT, "FillBytes")
-	// ff.Element / ffg.Element
-	for _, f := range []string{"ff.Element", "ffg.Element"} {
-		addMethods(f, "W", "recv", Type{}, "SetBigInt", "SetUint64", "SetZero", "SetOne", "Set",
-			"Add", "Sub", "Mul", "Square", "Neg", "Double", "Exp", "Inverse", "Div", "FromMont",
-			"ToMont", "SetRandom", "SetString", "SetBytes", "Sqrt", "MulAssign", "AddAssign",
-			"SubAssign", "Halve", "SetInterface")
-		addMethods(f, "R", "scalar", intT, "Equal", "IsZero", "Cmp", "IsUint64", "Legendre",
-			"LexicographicallyLargest", "ToUint64Regular", "Uint64")
-		addMethods(f, "R", "scalar", identT("string"), "String")
-		addMethods(f, "R", "fresh", bytesT, "Bytes")
-		addMethods(f, "W0", "arg0", libT("big", "Int", true), "ToBigIntRegular", "ToBigInt")
-	}
 	// hash.Hash (blake512, sha3, sha256)
 	addMethods("hash.Hash", "W", "scalar", intT, "Write", "Reset")
 	addMethods("hash.Hash", "R", "fresh+arg0", bytesT, "Sum")
@@ -64,9 +53,6 @@ func init() {
 	errT := identT("error")
 	strT := identT("string")
 	libFuncs["big.NewInt"] = libSig{"R", "fresh", libT("big", "Int", true)}
-	libFuncs["ff.NewElement"] = libSig{"R", "fresh", libT("ff", "Element", true)}
-	libFuncs["ffg.NewElement"] = libSig{"R", "fresh", libT("ffg", "Element", true)}
-	libFuncs["ffg.NewElementFromUint64"] = libSig{"R", "fresh", libT("ffg", "Element", true)}
 	libFuncs["blake512.New"] = libSig{"R", "fresh", hashT}
 	libFuncs["sha3.NewLegacyKeccak256"] = libSig{"R", "fresh", hashT}
 	libFuncs["sha256.New"] = libSig{"R", "fresh", hashT}
@@ -80,4 +66,52 @@ func init() {
 	libFuncs["bytes.HasPrefix"] = libSig{"R", "scalar", identT("bool")}
 	libFuncs["bytes.Equal"] = libSig{"R", "scalar", identT("bool")}
 	libFuncs["rand.Read"] = libSig{"W0", "scalar", intT}
+	libFuncs["io.ReadFull"] = libSig{"W1", "scalar", intT}
+	u64 := identT("uint64")
+	for _, f := range []string{"Mul64", "Add64", "Sub64", "Div64", "Rem64"} {
+		libFuncs["bits."+f] = libSig{"R", "scalar", u64}
+	}
+	for _, f := range []string{"Len64", "Len", "TrailingZeros64", "LeadingZeros64", "OnesCount64"} {
+		libFuncs["bits."+f] = libSig{"R", "scalar", intT}
+	}
+	libFuncs["strconv.Itoa"] = libSig{"R", "scalar", strT}
+	libFuncs["strconv.FormatUint"] = libSig{"R", "scalar", strT}
+	libFuncs["reflect.TypeOf"] = libSig{"R", "fresh", libT("reflect", "Type", false)}
+	addMethods("reflect.Type", "R", "scalar", strT, "String", "Name")
+	// encoding/binary.BigEndian / LittleEndian (values of type binary.ByteOrder)
+	addMethods("binary.ByteOrder", "R", "scalar", u64, "Uint64", "Uint32", "Uint16")
+	addMethods("binary.ByteOrder", "W0", "scalar", intT, "PutUint64", "PutUint32", "PutUint16")
+	// sync.Pool.  ASSUMPTION: Get() returns an object that is exclusively
+	// owned by the caller until Put: it is modelled as a fresh allocation
+	// ("fresh"), Put(x) releases it and has no effect on the heap cells of the
+	// model.  The pool variable itself is therefore only read; this is why a
+	// package-level pool that is only Get/Put does not count as package state.
+	addMethods("sync.Pool", "R", "fresh", Type{}, "Get")
+	addMethods("sync.Pool", "R", "scalar", intT, "Put")
+}
+
+// Types of library package-level variables that the repo uses.
+var libGlobals = map[string]Type{
+	"binary.BigEndian":    libT("binary", "ByteOrder", false),
+	"binary.LittleEndian": libT("binary", "ByteOrder", false),
+	"rand.Reader":         libT("io", "Reader", false),
+}
+
+// Assembly routines (Go declarations without body, implemented in .s files):
+// the parameters (by index) that the routine writes; all others are read.
+// Rule: the first pointer argument (res / the element) is the destination;
+// Butterfly(a, b) writes both.  A body-less function that is not listed here
+// is translated as "may write anything" (RUnknown).
+var asmStubs = map[string][]int{
+	"ff.MulBy3":    {0},
+	"ff.MulBy5":    {0},
+	"ff.MulBy13":   {0},
+	"ff.add":       {0},
+	"ff.sub":       {0},
+	"ff.neg":       {0},
+	"ff.double":    {0},
+	"ff.mul":       {0},
+	"ff.fromMont":  {0},
+	"ff.reduce":    {0},
+	"ff.Butterfly": {0, 1},
 }
